@@ -139,8 +139,7 @@ type layerInfo struct {
 	limitSid bool
 }
 
-func (down *rtpDownTrack) getLayerInfo() layerInfo {
-	info := atomic.LoadUint32(&down.atomics.layerInfo)
+func unpackLayerInfo(info uint32) layerInfo {
 	return layerInfo{
 		sid:       uint8((info & 0xF)),
 		wantedSid: uint8((info >> 4) & 0xF),
@@ -152,20 +151,47 @@ func (down *rtpDownTrack) getLayerInfo() layerInfo {
 	}
 }
 
-func (down *rtpDownTrack) setLayerInfo(info layerInfo) {
+func packLayerInfo(info layerInfo) uint32 {
 	var l uint32
 	if info.limitSid {
 		l = 1 << 12
 	}
-	atomic.StoreUint32(&down.atomics.layerInfo,
-		uint32(info.sid&0xF)|
-			uint32(info.wantedSid&0xF)<<4|
-			uint32(info.maxSid&0xF)<<8|
-			l|
-			uint32(info.tid&0xF)<<16|
-			uint32(info.wantedTid&0xF)<<20|
-			uint32(info.maxTid&0xF)<<24,
-	)
+	return uint32(info.sid&0xF) |
+		uint32(info.wantedSid&0xF)<<4 |
+		uint32(info.maxSid&0xF)<<8 |
+		l |
+		uint32(info.tid&0xF)<<16 |
+		uint32(info.wantedTid&0xF)<<20 |
+		uint32(info.maxTid&0xF)<<24
+}
+
+func (down *rtpDownTrack) getLayerInfo() layerInfo {
+	return unpackLayerInfo(atomic.LoadUint32(&down.atomics.layerInfo))
+}
+
+func (down *rtpDownTrack) setLayerInfo(info layerInfo) {
+	atomic.StoreUint32(&down.atomics.layerInfo, packLayerInfo(info))
+}
+
+// updateLayerInfo applies f to the layer info and stores the result, unless
+// f returns false.  Unlike a getLayerInfo followed by a setLayerInfo, it
+// doesn't undo a change made in the meantime by another goroutine: it is
+// meant for the goroutines other than the track's writer, which only
+// change the wanted layers while Write moves the current ones.
+func (down *rtpDownTrack) updateLayerInfo(f func(info *layerInfo) bool) {
+	for {
+		old := atomic.LoadUint32(&down.atomics.layerInfo)
+		info := unpackLayerInfo(old)
+		if !f(&info) {
+			return
+		}
+		swapped := atomic.CompareAndSwapUint32(
+			&down.atomics.layerInfo, old, packLayerInfo(info),
+		)
+		if swapped {
+			return
+		}
+	}
 }
 
 const (
@@ -339,33 +365,36 @@ func (t *rtpDownTrack) adjustLayer() {
 	rate := uint64(r) * 8
 	if rate < max*7/8 {
 		// switch up
-		layer := t.getLayerInfo()
-		verifhook.At("rtpconn.adjustLayer.loaded", t)
-		if layer.limitSid && layer.wantedSid != 0 {
-			layer.wantedSid = 0
-			t.setLayerInfo(layer)
-		} else if !layer.limitSid && layer.sid < layer.maxSid {
-			layer.wantedSid = layer.sid + 1
-			t.setLayerInfo(layer)
-		} else if layer.tid < layer.maxTid {
-			layer.wantedTid = layer.tid + 1
-			t.setLayerInfo(layer)
-		}
+		t.updateLayerInfo(func(layer *layerInfo) bool {
+			verifhook.At("rtpconn.adjustLayer.loaded", t)
+			if layer.limitSid && layer.wantedSid != 0 {
+				layer.wantedSid = 0
+			} else if !layer.limitSid && layer.sid < layer.maxSid {
+				layer.wantedSid = layer.sid + 1
+			} else if layer.tid < layer.maxTid {
+				layer.wantedTid = layer.tid + 1
+			} else {
+				return false
+			}
+			return true
+		})
 	} else if rate > max*3/2 {
 		// switch down
-		layer := t.getLayerInfo()
-		verifhook.At("rtpconn.adjustLayer.loaded", t)
-		if layer.tid > 0 {
-			layer.wantedTid = layer.tid - 1
-			t.setLayerInfo(layer)
-		} else if layer.sid > 0 {
-			if layer.limitSid {
-				layer.wantedSid = 0
+		t.updateLayerInfo(func(layer *layerInfo) bool {
+			verifhook.At("rtpconn.adjustLayer.loaded", t)
+			if layer.tid > 0 {
+				layer.wantedTid = layer.tid - 1
+			} else if layer.sid > 0 {
+				if layer.limitSid {
+					layer.wantedSid = 0
+				} else {
+					layer.wantedSid = layer.sid - 1
+				}
 			} else {
-				layer.wantedSid = layer.sid - 1
+				return false
 			}
-			t.setLayerInfo(layer)
-		}
+			return true
+		})
 	}
 }
 
